@@ -43,9 +43,10 @@ def seeded_table():
         m = json.load(open(d + "/meta.json"))
         v = m.get("verif", {})
         out = "**detected** (exit 1, %d distinct keys, e.g. `%s`)" % (v.get("distinct_keys", 0), esc((v.get("first_keys") or ["?"])[0], 110)) \
-            if v.get("detected") else "**MISSED** (exit %s)" % v.get("check_exit")
+            if v.get("detected") else ("exit %s: with the later fix the change no longer breaks the property" % v.get("check_exit")
+                                       if "no longer breaks the property" in v.get("history", "") else "**MISSED** (exit %s)" % v.get("check_exit"))
         rows.append("| %s | %s | %s | %s | %s |" % (m["property"], esc(m.get("what_it_breaks", ""), 330), esc(m.get("needs_to_manifest", ""), 260), out,
-                                                  esc(v.get("history", ""), 300)))
+                                                  esc(v.get("history", ""), 520)))
     return "\n".join(rows)
 
 
